@@ -46,6 +46,6 @@ pub fn all_tables() -> Vec<(&'static [(&'static str, fn(&mut src::Src) -> src::R
     #[cfg(feature = "core")]
     { v.push((bitseq::BITSEQ, false)); v.push((bitseq::BITSEQ_REJECT, true)); v.push((ring::RING, false)); v.push((mono::MONO, false)); v.push((xing::XING, false)); v.push((xing::XING_REJECT, true)); }
     #[cfg(feature = "kh")]
-    { v.push((khgen::KHGEN, false)); v.push((cob::COB, false)); }
+    { v.push((khgen::KHGEN, false)); v.push((cob::COB, false)); v.push((cob::MISC, false)); }
     v
 }
